@@ -79,7 +79,11 @@ Proof.
   pose proof (ins_del_at sub (si_sub i) _ sub' Es) as Us.
   pose proof (fun q (Hq : q <> si_pos i) => set_at_nth_other cnt (si_pos i) _ cnt' q Ec (not_eq_sym Hq)) as Oc.
   destruct (si_inc i) as [z|] eqn:Ei.
-  - destruct (delete && negb expose) eqn:Ed.
+  - destruct (delete && negb expose) eqn:Ed; [destruct (negb (option_eqb Bool.eqb (nth_error vis (si_pos i)) (Some true))) eqn:Evis|].
+    + eexists. eexists. split; [reflexivity|]. cbn [as_undo as_cols]. split; [reflexivity|].
+      split; [|split; [repeat split; cbn; lia|exact Oc]].
+      unfold undo_one. cbn [su_ins su_vis su_text su_top c_cnt c_vis c_text c_top c_sub].
+      rewrite Uc, Us. reflexivity.
     + destruct (nth_error_some_lt top (si_pos i) Hp) as [t0 Et0].
       destruct (nth_error_some_lt text (si_pos i) Ht) as [x0 Ex0].
       destruct (set_at_ok top (si_pos i) true Hp) as [top' [Et Lt]].
@@ -169,22 +173,73 @@ Example undo_succ_example :
     undo_succ c' us = Ok c.
 Proof. cbv zeta. eexists. eexists. split; [vm_compute; reflexivity|]. repeat split. Qed.
 
-(* The defect this layer exposes (found by the family txn, C29 known finding): the counter an
-   increment names is marked as the register's top op without looking at its visible flag.  In a
-   plain transaction every named op is visible; in a transaction scoped to older heads the
-   named ops may have been deleted since: the columns then say "top, not visible", and
-   reset_top, which every local op of a scoped transaction runs next, hits its assertion. *)
-Theorem add_succ_exposes_invisible_refuted :
-  exists c ins c' us,
-    NoDup (map si_pos ins) /\ (forall i, In i ins -> wf_ins c i) /\
-    add_succ_with_undo c ins = Ok (c', us) /\
-    nth_error (c_top c') 0 = Some true /\ nth_error (c_vis c') 0 = Some false /\
-    reset_top (c_vis c') (c_top c') 0 2 = Panic.
+(* ---- a top op is visible: preserved ---- *)
+Lemma set_at_nth_same {A} (l : list A) : forall p v l', set_at p v l = Ok l' -> nth_error l' p = Some v.
 Proof.
-  (* row 0: a counter, row 1: a concurrent null, both deleted in the document (not visible) *)
-  exists (mkCols [1; 1] [false; false] [None; None] [false; false] [((8, [1]), None); ((12, [1]), None)]).
-  exists [mkSI (20, [3]) 0 (Some 3%Z) 1 1 (Some 1); mkSI (20, [3]) 1 None 1 2 (Some 1)].
-  eexists. eexists. split; [repeat constructor; cbn; intuition discriminate|].
-  split; [intros i [<-|[<-|[]]]; unfold wf_ins; cbn; repeat split; try reflexivity; lia|].
-  split; [vm_compute; reflexivity|]. repeat split.
+  induction l as [|x t IH]; intros p v l' H; [destruct p; discriminate|].
+  destruct p as [|q]; cbn [set_at] in H.
+  - inversion H; subst. reflexivity.
+  - destruct (set_at q v t) as [t'| |] eqn:E; cbn [bind] in H; try discriminate.
+    inversion H; subst. cbn [nth_error]. eapply IH. exact E.
+Qed.
+
+Lemma add_one_top_vis s i s' : add_one s i = Ok s' -> top_vis (as_cols s) -> top_vis (as_cols s').
+Proof.
+  destruct s as [[cnt vis text top sub] undo inc last expose delete]. unfold add_one, top_vis.
+  cbn [as_cols as_undo as_inc as_last as_expose as_delete c_cnt c_vis c_text c_top c_sub].
+  destruct (set_at (si_pos i) _ cnt) as [cnt'| |]; cbn [bind]; try discriminate.
+  destruct (ins_at (si_sub i) _ sub) as [sub'| |]; cbn [bind]; try discriminate.
+  destruct (si_inc i) as [z|].
+  - destruct (delete && negb expose).
+    + destruct (negb (option_eqb Bool.eqb (nth_error vis (si_pos i)) (Some true))) eqn:Evis.
+      * intros H Inv. inversion H; subst. exact Inv.
+      * destruct (set_at (si_pos i) true top) as [top'| |] eqn:Et; cbn [bind]; try discriminate.
+        destruct (set_at (si_pos i) (si_width i) text) as [text'| |]; cbn [bind]; try discriminate.
+        intros H Inv. inversion H; subst. cbn [as_cols c_top c_vis]. intros p Hp.
+        destruct (Nat.eq_dec (si_pos i) p) as [<-|Hne].
+        -- apply negb_false_iff in Evis. destruct (nth_error vis (si_pos i)) as [[|]|]; cbn in Evis; try discriminate. reflexivity.
+        -- rewrite (set_at_nth_other top _ _ top' p Et Hne) in Hp. apply Inv, Hp.
+    + intros H Inv. inversion H; subst. exact Inv.
+  - destruct (set_at (si_pos i) false vis) as [vis'| |] eqn:Ev; cbn [bind]; try discriminate.
+    destruct (set_at (si_pos i) None text) as [text'| |]; cbn [bind]; try discriminate.
+    destruct (set_at (si_pos i) false top) as [top'| |] eqn:Et; cbn [bind]; try discriminate.
+    intros H Inv. inversion H; subst. cbn [as_cols c_top c_vis]. intros p Hp.
+    destruct (Nat.eq_dec (si_pos i) p) as [<-|Hne].
+    + rewrite (set_at_nth_same top _ _ top' Et) in Hp. discriminate.
+    + rewrite (set_at_nth_other top _ _ top' p Et Hne) in Hp.
+      rewrite (set_at_nth_other vis _ _ vis' p Ev Hne). apply Inv, Hp.
+Qed.
+
+Lemma add_loop_top_vis L : forall s s', add_loop s L = Ok s' -> top_vis (as_cols s) -> top_vis (as_cols s').
+Proof.
+  induction L as [|i t IH]; intros s s' H Inv; cbn [add_loop] in H.
+  - inversion H; subst. exact Inv.
+  - destruct (add_one s i) as [s1| |] eqn:E; cbn [bind] in H; try discriminate.
+    eapply IH; [exact H|eapply add_one_top_vis; eassumption].
+Qed.
+
+(* As of the repair 9da869ded, for ANY inserts (a scoped transaction may name ops the document
+   has superseded since), adding successors never leaves a top flag on an op that is not visible -
+   the state in which reset_top's assertion fired before the repair. *)
+Theorem add_succ_keeps_top_visible (c : cols) (ins : list sins) c' us :
+  top_vis c -> add_succ_with_undo c ins = Ok (c', us) -> top_vis c'.
+Proof.
+  intros Inv H. unfold add_succ_with_undo in H.
+  destruct (add_loop _ (rev ins)) as [s'| |] eqn:E; cbn [bind] in H; try discriminate.
+  inversion H; subst. eapply add_loop_top_vis; [exact E|exact Inv].
+Qed.
+
+(* the columns of the repaired defect: a counter (row 0) and a concurrent null (row 1), both
+   deleted in the document, named by an increment of a scoped transaction: no top flag is set,
+   reset_top goes through and undo restores the columns *)
+Example scoped_increment_fixed :
+  let c := mkCols [1; 1] [false; false] [None; None] [false; false] [((8, [1]), None); ((12, [1]), None)] in
+  let ins := [mkSI (20, [3]) 0 (Some 3%Z) 1 1 (Some 1); mkSI (20, [3]) 1 None 1 2 (Some 1)] in
+  top_vis c /\
+  exists c' us, add_succ_with_undo c ins = Ok (c', us) /\ c_top c' = [false; false] /\
+                reset_top (c_vis c') (c_top c') 0 2 = Ok [false; false] /\ undo_succ c' us = Ok c.
+Proof.
+  cbv zeta. split.
+  - intros p Hp. destruct p as [|[|p]]; cbn in Hp; try discriminate. destruct p; discriminate.
+  - eexists. eexists. split; [vm_compute; reflexivity|]. repeat split.
 Qed.
